@@ -142,6 +142,7 @@ func runCheck(id, tier, repo, verif string, seed int, only *Obligation) int {
 	}
 	if tier == "thorough" {
 		selfTestSeeded(id, verif, repo, r)
+		selfTestBenign(id, verif, repo, r)
 	}
 	return r.finish(verif, t0, seed, strings.Join(os.Args, " "), cfgNames)
 }
